@@ -32,6 +32,11 @@ def instances(tier, seed):
         out.append({'lens': list(p), 'wide': None})
     for t in triples:
         out.append({'lens': list(t), 'wide': None})
+    # the other built-in string argument types (String, Cow::Borrowed, Cow::Owned) go through their own Argument impls
+    for ty in ('string', 'cowb', 'cowo'):
+        for n in (range(0, 4) if tier == 'quick' else range(0, 5)):
+            out.append({'lens': [n], 'wide': None, 'ty': ty})
+        out.append({'lens': [1, 2], 'wide': None, 'ty': ty})
     for n, p in wide:
         out.append({'lens': [n], 'wide': [0, p]})
         if tier != 'quick':
@@ -70,8 +75,14 @@ def run_instance(payload):
     P = engine.load_program()
     res = Result('lens=%s wide=%s' % (payload['lens'], payload['wide']))
     t0 = time.time()
-    lens = payload['lens']; wide = payload['wide']
+    lens = payload['lens']; wide = payload['wide']; ty = payload.get('ty', 'str')
     known = known_keys(PROP)
+    TY = {'str': '&str', 'string': 'String', 'cowb': "std::borrow::Cow<'_, str>", 'cowo': "std::borrow::Cow<'_, str>"}[ty]
+    def mkarg(items):
+        if ty == 'str': return SliceRef(items, 0, len(items), 'str')
+        if ty == 'string': return StrBuf(list(items))
+        if ty == 'cowb': return Adt('Cow', 'Borrowed', 0, [SliceRef(items, 0, len(items), 'str')])
+        return Adt('Cow', 'Owned', 1, [StrBuf(list(items))])
 
     def harness(I):
         args = []
@@ -90,7 +101,7 @@ def run_instance(payload):
         cmd = r.fields[0]
         cell = ValLoc(cmd)
         for items in args:
-            rr = I.call_repo('mpd_protocol::Command::add_argument::<&str>', [Ref(cell), SliceRef(items, 0, len(items), 'str')])
+            rr = I.call_repo('mpd_protocol::Command::add_argument::<%s>' % TY, [Ref(cell), mkarg(items)])
             if rr.variant != 'Ok':
                 return ('rejected', args, None)
         lst = I.call_repo('mpd_protocol::CommandList::new', [cell.get()])
@@ -105,6 +116,7 @@ def run_instance(payload):
             continue
         kind, args, wire = pr.value
         ctx._I = pr.interp
+        ctx._ty = ty
         if kind == 'rejected':
             res.cls('rejected')
             # all inputs exclude LF, so a rejection is itself a violation of "accepted arguments round-trip"
@@ -165,18 +177,18 @@ def add_violation(res, ctx, args, what, known):
         if c is True or (c is not False and ctx.check(zb(c))):
             if k not in res.known:
                 m = ctx.model(zb(c))
-                res.known[k] = {'args': [hexs(model_bytes(m, a)) for a in args], 'what': what}
+                res.known[k] = {'args': [hexs(model_bytes(m, a)) for a in args], 'what': what, 'ty': getattr(ctx, '_ty', 'str')}
         outside.append(z3.Not(zb(c)))
     m = ctx.model(*outside)
     if m is not None:
-        res.violations.append({'what': what, 'input': {'args': [hexs(model_bytes(m, a)) for a in args]}})
+        res.violations.append({'what': what, 'input': {'args': [hexs(model_bytes(m, a)) for a in args], 'ty': getattr(ctx, '_ty', 'str')}})
 
 # ---------------------------------------------------------------------------- native replay
 def replay(rec):
     """run the real crate natively on the concrete arguments; True iff the violation reproduces"""
     inp = rec.get('input') or rec
     args = [unhex(a) for a in inp['args']]
-    out = run_replay(['line', hexs(NAME)] + [hexs(a) for a in args])
+    out = run_replay(['linety', inp.get('ty', 'str'), hexs(NAME)] + [hexs(a) for a in args])
     if 'panic' in out:
         return True, 'native run panics: ' + unhex(out['panic'][0]).decode('utf-8', 'replace')
     if any(v == 'err' for k, vs in out.items() if k.startswith('add') for v in vs):
